@@ -67,7 +67,7 @@ func vDot(row []uint64, a []uint64) *big.Int {
 }
 
 func vNTTCase(n int, q uint64) {
-		s := VerifSetup_SubRing(n, q)
+	s := VerifSetup_SubRing(n, q)
 	m := VerifSetup_NTTMatrix(n, q, false)
 	a := vU64s("a", n)
 	in := make([]uint64, n)
@@ -91,7 +91,7 @@ func vNTTCase(n int, q uint64) {
 }
 
 func vINTTCase(n int, q uint64) {
-		s := VerifSetup_SubRing(n, q)
+	s := VerifSetup_SubRing(n, q)
 	m := VerifSetup_NTTMatrix(n, q, true)
 	b := vU64s("b", n)
 	in := make([]uint64, n)
